@@ -68,6 +68,9 @@ chk("C05", E1, "model_checking",
 chk("C07", E1, "model_checking",
     "Every (suite/version/CID configuration, writing side, position of the application's Write(marker) before / during / after the handshake, follow-up in {none, second Write, Close, injected unprotected application data}): every datagram of the execution is searched raw for the marker, the decrypted Finished bodies and (1.3) protected handshake bytes; every record is decoded with reference keys and checked against the never-unprotected policy (no application data or Finished at epoch 0; DTLS 1.3: no plaintext handshake other than ClientHello/ServerHello/HRR, no plaintext ACK); Read never returns data that arrived unprotected; the exporter equals the reference exporter keyed by the session secret and differs from every catalogued public-only derivation.",
     "stateless model checking of the implementation: exhaustive placement of application writes with a wire-level plaintext monitor and a reference-keyed decoder")
+chk("C08", E1, "model_checking",
+    "16 handshake variants (8 with every quiescent point of the default run, 8 decrypt-path variants at key-holding points) x attacked endpoint x point (or established) x input family: all byte strings of length <=1 (thorough: all 65 793 of length <=2), products of small per-field domains for record headers and handshake headers (type x length x message_seq {0,cur-1,cur,cur+1,ffff} x offset x fragment length), every truncation and single-byte corruption of captured genuine datagrams, key-less CBC constructions, ~150 authenticated malformed contents forged with reference keys, floods of 2000 datagrams (future epochs, fragments, messages, undecryptable records); injected one at a time into a live association with a liveness check and the fixed memory limits after each; then the genuine handshake must complete and one payload flow each way; panics are attributed to the single input (child process / journal).",
+    "stateless model checking of the implementation: exhaustive injection of a bounded hostile-datagram grammar at every handshake state, with liveness and memory-bound oracles")
 chk("C09", E1, "model_checking",
     "Every (suite class x CID x version, sending side, ordered selection of <=3 (4) concurrent operations from {3 Writes, peer retransmission arriving, UpdateKeys, Close} started at one quiescent point, emission hold none/0/1/2 with a Write queued behind the held write lock) plus the 2^48 boundary; every record of the execution is decoded with reference keys and (epoch, sequence) must strictly increase per sender and epoch in emission order; writes past 2^48-1 must fail and emit nothing. Lock-granularity interleavings are not enumerated here; export/import continuity is C19's.",
     "stateless model checking of the implementation: exhaustive concurrent-operation placement with a reference-keyed (epoch, sequence) monitor")
